@@ -24,6 +24,7 @@ import (
 	"sync"
 	"time"
 
+	"github.com/rs/xid"
 	"github.com/rs/zerolog"
 	"github.com/rs/zerolog/hlog"
 	"github.com/rs/zerolog/mcrt"
@@ -319,6 +320,12 @@ func reqFor(i int) *http.Request {
 	return r
 }
 
+func givenID(i int) xid.ID {
+	var id xid.ID
+	id[0], id[11] = 0x5f, byte(i+1)
+	return id
+}
+
 func handlers() []fh {
 	return []fh{
 		{"URL", hlog.URLHandler("url"), "url", func(i int) string { return fmt.Sprintf("/path%d?q=%d", i, i) }},
@@ -336,6 +343,16 @@ func handlers() []fh {
 		{"Host", hlog.HostHandler("host"), "host", func(i int) string { return fmt.Sprintf("host%d.example:80%d", i, i) }},
 		{"HostTrim", hlog.HostHandler("hostt", true), "hostt", func(i int) string { return fmt.Sprintf("host%d.example", i) }},
 		{"RequestID", hlog.RequestIDHandler("req_id", "x-req-ID"), "req_id", func(i int) string { return "*" }},
+		// an upstream middleware has already put an id into the request context (hlog.CtxWithID): RequestIDHandler
+		// keeps it - in the field, in the header and for IDFromRequest alike
+		{"RequestIDGiven", func(next http.Handler) http.Handler {
+			inner := hlog.RequestIDHandler("rid_given", "X-Rid-Given")(next)
+			return http.HandlerFunc(func(w http.ResponseWriter, r *http.Request) {
+				var i int
+				fmt.Sscanf(r.URL.Path, "/path%d", &i)
+				inner.ServeHTTP(w, r.WithContext(hlog.CtxWithID(r.Context(), givenID(i))))
+			})
+		}, "rid_given", func(i int) string { return givenID(i).String() }},
 	}
 }
 
@@ -490,6 +507,9 @@ func checkLines(lines []string, hs []fh, nreq int, hdrs []http.Header) []string 
 			}
 			if got != w {
 				fails = append(fails, fmt.Sprintf("request %d: field %s=%q, want %q (another request's value?) in %q", i, h.key, got, w, l))
+			}
+			if h.name == "RequestIDGiven" && hdrs != nil && hdrs[i].Get("X-Rid-Given") != w {
+				fails = append(fails, fmt.Sprintf("request %d: response header X-Rid-Given=%q, want the id given upstream %q", i, hdrs[i].Get("X-Rid-Given"), w))
 			}
 		}
 	}
